@@ -3,7 +3,8 @@
 // executable hashes of ZV.Hash).  T3: every line is compared with an independent implementation
 // written from the RFC texts (ref.go) with crypto/hmac and golang.org/x/crypto/hkdf.
 // seq.go: the derived closures / running hashes queried many times on ONE object; livex.go: the exporter of live
-// connections queried repeatedly on both ends and recomputed from the log (TLS <= 1.2) or the wire (TLS 1.3).
+// connections queried repeatedly on both ends and recomputed from the log (TLS <= 1.2) or the wire (TLS 1.3), with and
+// without client authentication, sequentially and from several goroutines; par.go: one exporter closure called concurrently.
 package c26
 
 import (
@@ -261,6 +262,8 @@ func exec(line string) zv.Out {
 		tags = append(tags, fmt.Sprintf("suite=%04x", suite), lenTag("n", n), lenTag("label", len(label)), "res="+strings.Fields(want)[0])
 	case "prfseq", "ekmseq", "ekm13seq", "finseq", "sched13":
 		return execSeq(f)
+	case "ekmpar", "ekm13par":
+		return execPar(f)
 	case "livex":
 		return execLiveX(f)
 	case "kat":
@@ -298,5 +301,5 @@ func boundaryClass(n, size int) int { // 0: multiple of the hash size, 1: one pa
 
 func init() {
 	zv.Register(&zv.Prop{ID: "C26", Topic: "c26", Gen: gen, Exec: exec,
-		Rule: "random secrets/labels/seeds (lengths 0..~80, incl. empty and odd/even secrets) x EVERY output length 0..512 for every hash (MD5, SHA-1, SHA-256, SHA-384, SHA-512), prf10, prf12 and HKDF-Expand-Label per TLS 1.3 suite (thorough: 12 independent repetitions) x every implemented TLS<=1.2 suite and version 1.0/1.1/1.2 (+ unknown versions) x all three TLS 1.3 suites, label/context/length limits of HKDF-Expand-Label (254..256-byte vectors, 255*HashLen+-1); a case is one distinct call; T3 = independent RFC implementation (crypto/hmac, x/crypto/hkdf) + published vectors (RFC 8448, TLS 1.2 PRF test vector) + real handshakes for every servable (version, suite) pair whose logged pre-master/master secret, Finished verify_data and exporter output are recomputed from the plaintext transcript with the RFC reference; STATEFUL USE (one object, many queries; every answer compared with the reference evaluated on that query alone, T2 + T3): prfseq = one PRF closure of prfAndHashForVersion called 2-5 times with inputs of changing lengths, ekmseq / ekm13seq = ONE exporter closure (the object kept in Conn.ekm, TLS 1.0-1.2 and every TLS 1.3 suite) queried 2-6 times with different labels (incl. reserved and over-long ones) x contexts nil / empty / 1 byte / around the 64- and 128-byte hash blocks / random / repeated x lengths, some queries repeated verbatim, plus a fixed 3-query grid first-context x second-context; finseq = one finishedHash with Sum/clientSum/serverSum before the first and after every Write; sched13 = one TLS 1.3 transcript hash shared by deriveSecret / finishedHash / exportKeyingMaterial with writes in between, random scripts and the handshake's own order (exporter created before the client Finished is written, queried afterwards); livex = live connections for every servable (version, suite) pair, full and resumed (ticket / PSK), on which ConnectionState().ExportKeyingMaterial is called 4-8 times on BOTH ends in different orders (stored and fresh ConnectionState alternately, one query repeated): both ends agree, repeats agree, and every answer equals RFC 5705 from the logged master secret (TLS 1.0-1.2, full and resumed) or RFC 8446 7.5 recomputed from the wire (TLS 1.3 full handshakes: X25519 private key from a recording Config.Rand, server flight decrypted with the reference's own handshake keys, full 7.1 schedule)"})
+		Rule: "random secrets/labels/seeds (lengths 0..~80, incl. empty and odd/even secrets) x EVERY output length 0..512 for every hash (MD5, SHA-1, SHA-256, SHA-384, SHA-512), prf10, prf12 and HKDF-Expand-Label per TLS 1.3 suite (thorough: 12 independent repetitions) x every implemented TLS<=1.2 suite and version 1.0/1.1/1.2 (+ unknown versions) x all three TLS 1.3 suites, label/context/length limits of HKDF-Expand-Label (254..256-byte vectors, 255*HashLen+-1); a case is one distinct call; T3 = independent RFC implementation (crypto/hmac, x/crypto/hkdf) + published vectors (RFC 8448, TLS 1.2 PRF test vector) + real handshakes for every servable (version, suite) pair whose logged pre-master/master secret, Finished verify_data and exporter output are recomputed from the plaintext transcript with the RFC reference; STATEFUL USE (one object, many queries; every answer compared with the reference evaluated on that query alone, T2 + T3): prfseq = one PRF closure of prfAndHashForVersion called 2-5 times with inputs of changing lengths, ekmseq / ekm13seq = ONE exporter closure (the object kept in Conn.ekm, TLS 1.0-1.2 and every TLS 1.3 suite) queried 2-6 times with different labels (incl. reserved and over-long ones) x contexts nil / empty / 1 byte / around the 64- and 128-byte hash blocks / random / repeated x lengths, some queries repeated verbatim, plus a fixed 3-query grid first-context x second-context; finseq = one finishedHash with Sum/clientSum/serverSum before the first and after every Write; sched13 = one TLS 1.3 transcript hash shared by deriveSecret / finishedHash / exportKeyingMaterial with writes in between, random scripts and the handshake's own order (exporter created before the client Finished is written, queried afterwards); livex = live connections for every servable (version, suite) pair, full and resumed (ticket / PSK), on which ConnectionState().ExportKeyingMaterial is called 4-8 times on BOTH ends in different orders (stored and fresh ConnectionState alternately, one query repeated): both ends agree, repeats agree, and every answer equals RFC 5705 from the logged master secret (TLS 1.0-1.2, full and resumed) or RFC 8446 7.5 recomputed from the wire (TLS 1.3 full handshakes: X25519 private key from a recording Config.Rand, server flight decrypted with the reference's own handshake keys, full 7.1 schedule); livex with CLIENT AUTHENTICATION: the same check on handshakes in which the server asks for a client certificate — Config.ClientAuth = NoClientCert / RequestClientCert / RequireAnyClientCert / VerifyClientCertIfGiven / RequireAndVerifyClientCert x client with no certificate / an RSA / ECDSA / Ed25519 certificate (the 8 combinations that complete) x TLS 1.0, 1.1, 1.2 (RSA, ECDHE-RSA, ECDHE-ECDSA suites) and every TLS 1.3 suite, full and some resumed: both ends agree and equal the reference (TLS 1.3: exporter secret over ClientHello..server Finished although the client's Certificate / CertificateVerify follow); CONCURRENT USE: every livex connection repeats its queries from 8 goroutines at once on both ends (stored and fresh ConnectionState, one query with a 9-29 KB context), and ekmpar / ekm13par call ONE exporter closure (TLS 1.0-1.2 / each TLS 1.3 suite) from 8-16 goroutines x 10-40 rounds with contexts from nil to 32 KB: every single answer must equal the sequential answer / the RFC reference"})
 }
